@@ -1,7 +1,7 @@
 (** Dispatch2.v — entry points of the models added after Dispatch.v (DER/token keys, hashes, key blinding, ...).
     [dispatch2] is what the OCaml runner calls; unknown names fall through to [dispatch]. *)
 From Coq Require Import Strings.String.
-From PatVerif Require Import Base.GoSem Model.Dispatch Model.TokenKey Model.Codecs.
+From PatVerif Require Import Base.GoSem Model.Dispatch Model.TokenKey Model.Codecs Model.Derive.
 Open Scope N_scope.
 
 Definition out_z (z : Z) : list (list byte) :=
@@ -26,5 +26,29 @@ Definition dispatch_tokenkey (name : list byte) (a : list (list byte)) : option 
   else if is name "sha512" then Some [sha512 (arg a 0)]
   else None.
 
+(** derivations; numbers travel as big-endian byte strings (minimal on output) *)
+Definition dispatch_derive (name : list byte) (a : list (list byte)) : option (list (list byte)) :=
+  if is name "ecdsa_blind_factor" then Some [be_min (ecdsa_blind_factor (narg a 0) (arg a 1) (arg a 2))]
+  else if is name "ecdsa_blind_exp" then
+    (* curve, secret d, blind key, context -> factor, d*factor mod N, factor^-1 mod N, factor * factor^-1 mod N *)
+    let q := curve_order (narg a 0) in
+    let f := ecdsa_blind_factor (narg a 0) (arg a 2) (arg a 3) in
+    Some [be_min f; be_min (mulm q (narg a 1 mod q) f); be_min (invm q f); be_min (mulm q f (invm q f))]
+  else if is name "mulm" then Some [be_min (mulm (narg a 0) (narg a 1) (narg a 2))]
+  else if is name "invm" then Some [be_min (invm (narg a 0) (narg a 1))]
+  else if is name "ed_blind_factor" then
+    let f := ed_blind_factor (arg a 0) (arg a 1) in
+    Some [le_enc 32 f; le_enc 32 (invm order_ed25519 f); le_enc 32 (mulm order_ed25519 f (invm order_ed25519 f))]
+  else if is name "ed_mul_add" then
+    Some [le_enc 32 ((le_dec (arg a 0) * le_dec (arg a 1) + le_dec (arg a 2)) mod order_ed25519)]
+  else if is name "ed_reduce" then Some [le_enc 32 (le_dec (arg a 0) mod order_ed25519)]
+  else if is name "compute_index" then Some [compute_index (arg a 0) (arg a 1)]
+  else if is name "origin_exponent" then Some [be_min (origin_exponent (narg a 0) (arg a 1))]
+  else if is name "token_bytes" then Some [token_bytes (narg a 0) (arg a 1) (arg a 2) (arg a 3) (arg a 4)]
+  else if is name "hkdf384" then Some [hkdf p384 (arg a 0) (arg a 1) (arg a 2) (N.to_nat (narg a 3))]
+  else if is name "xmd" then Some [expand_message_xmd (curve_hash (narg a 0)) (arg a 1) (arg a 2) (N.to_nat (narg a 3))]
+  else None.
+
 Definition dispatch2 (name : list byte) (a : list (list byte)) : list (list byte) :=
-  match dispatch_tokenkey name a with Some r => r | None => dispatch name a end.
+  match dispatch_tokenkey name a with Some r => r | None =>
+  match dispatch_derive name a with Some r => r | None => dispatch name a end end.
